@@ -12,6 +12,7 @@ import (
 	"path/filepath"
 	"strings"
 	"sync"
+	"syscall"
 	"time"
 
 	// imports required for go-digest
@@ -174,16 +175,25 @@ func (d *dir) RepoGet(ctx context.Context, repoStr string) (Repo, error) {
 	}
 	dr.uploads = cache.New[string, *dirRepoUpload](uploadCacheOpts)
 	dr.wgBlock <- struct{}{}
-	d.repos.Set(repoStr, &dr)
 	statDir, err := os.Stat(dr.path)
+	if storageFailure(err) && !errors.Is(err, syscall.ENOTDIR) {
+		// only a missing directory means there is no repository, any other failure may be gone on the next attempt
+		return nil, fmt.Errorf("failed to access repo %s: %w", repoStr, err)
+	}
 	if err == nil && statDir.IsDir() {
 		statIndex, errIndex := os.Stat(filepath.Join(dr.path, indexFile))
 		//#nosec G304 internal method is only called with filenames within admin provided path.
 		layoutBytes, errLayout := os.ReadFile(filepath.Join(dr.path, layoutFile))
+		for _, err := range []error{errIndex, errLayout} {
+			if storageFailure(err) && !errors.Is(err, syscall.ENOTDIR) {
+				return nil, fmt.Errorf("failed to access repo %s: %w", repoStr, err)
+			}
+		}
 		if errIndex == nil && errLayout == nil && !statIndex.IsDir() && layoutVerify(layoutBytes) {
 			dr.exists = true
 		}
 	}
+	d.repos.Set(repoStr, &dr)
 	dr.wg.Add(1)
 	return &dr, nil
 }
@@ -644,6 +654,8 @@ func (dr *dirRepo) indexLoad(force, locked bool) error {
 
 	mod, err := indexIngest(dr, &dr.index, dr.conf, locked)
 	if err != nil {
+		// what was ingested so far is not kept as the loaded version of the file: the next access starts over
+		dr.timeMod, dr.timeCheck = time.Time{}, time.Time{}
 		return err
 	}
 	if mod && !*dr.conf.Storage.ReadOnly {
